@@ -673,7 +673,10 @@ class BaseBackend(CodeGen):
             return idx
 
     def _process_delay(self, delay: Union[ComputeVar, float]) -> str:
-        return f"{delay}[{self._start_idx}]" if type(delay) is ComputeVar and delay.shape else f"{delay}"
+        # (a constant of shape (1,) is handed to the generated function as a 0-d scalar, see `get_var`)
+        if type(delay) is ComputeVar and delay.shape and not (tuple(delay.shape) == (1,) and delay.vtype == 'constant'):
+            return f"{delay}[{self._start_idx}]"
+        return f"{delay}"
 
     def _validate_solver(self, solver: str) -> None:
         """Raise a helpful error if the requested solver is not supported.
